@@ -163,3 +163,8 @@ func (t *Tape) Canon(i, v int) {
 		t.Rec[i].V = v
 	}
 }
+
+// Exhausted reports, in replay mode, that the recorded tape has been consumed: everything drawn from
+// now on is 0 (benign). Engines whose runs have a configured length may stop there, which keeps
+// shrunk replays short. Always false for a fresh (PRNG-driven) tape.
+func (t *Tape) Exhausted() bool { return t.isReplay && t.pos >= len(t.replay) }
